@@ -54,7 +54,9 @@ var active atomic.Pointer[Sched]
 // ErrDeadlock is returned by Run when all unfinished threads are blocked.
 type ErrDeadlock struct{ Blocked []int }
 
-func (e *ErrDeadlock) Error() string { return fmt.Sprintf("deadlock: threads %v are blocked forever", e.Blocked) }
+func (e *ErrDeadlock) Error() string {
+	return fmt.Sprintf("deadlock: threads %v are blocked forever", e.Blocked)
+}
 
 // ErrPanic is returned by Run when a thread panicked.
 type ErrPanic struct {
